@@ -93,10 +93,10 @@ func GetRelativeStartOfWeek(now time.Time, week time.Weekday, offsetWeeks int) t
 		weekday = 7
 	}
 	if nowWeekday < weekday {
-		now = now.Add(-Week)
+		now = now.AddDate(0, 0, -7)
 	}
 	moment := GetStartOfWeek(now, week)
-	return moment.Add(Week * time.Duration(offsetWeeks))
+	return moment.AddDate(0, 0, 7*offsetWeeks)
 }
 
 // GetRelativeEndOfWeek 获取相对于当前时间的本周结束时间，以指定的星期作为一周的开始，并根据需要进行周数的偏移
